@@ -109,17 +109,18 @@ impl WireServerClient {
         let mut headers = HashMap::new();
         headers.insert("x-ms-version".to_string(), "2012-11-30".to_string());
 
+        // read the key guid and value from one snapshot, so they always belong to the same key
+        let (key_guid, key) = self
+            .key_keeper_shared_state
+            .get_current_key_guid_and_value()
+            .await
+            .unwrap_or((None, None));
+
         hyper_client::get(
             &url,
             &headers,
-            self.key_keeper_shared_state
-                .get_current_key_guid()
-                .await
-                .unwrap_or(None),
-            self.key_keeper_shared_state
-                .get_current_key_value()
-                .await
-                .unwrap_or(None),
+            key_guid,
+            key,
             logger::write_warning,
         )
         .await
@@ -133,17 +134,18 @@ impl WireServerClient {
             .map_err(|e| Error::ParseUrl(url, e.to_string()))?;
         headers.insert("x-ms-version".to_string(), "2012-11-30".to_string());
 
+        // read the key guid and value from one snapshot, so they always belong to the same key
+        let (key_guid, key) = self
+            .key_keeper_shared_state
+            .get_current_key_guid_and_value()
+            .await
+            .unwrap_or((None, None));
+
         hyper_client::get(
             &url,
             &headers,
-            self.key_keeper_shared_state
-                .get_current_key_guid()
-                .await
-                .unwrap_or(None),
-            self.key_keeper_shared_state
-                .get_current_key_value()
-                .await
-                .unwrap_or(None),
+            key_guid,
+            key,
             logger::write_warning,
         )
         .await
